@@ -457,7 +457,7 @@ func TestC18Binding(t *testing.T) {
 				return safely(func() error { return b.DecodeBlock(r, rev, auto) })
 			}
 			if err := decodeAutoBlock(encodeRefBlock(rev, blockCols(cols), -1)); err != nil {
-				rt.Fatalf("[%s] first block into Results.Auto(): %v", class, err)
+				rt.Fatalf("[%s] first block %v into Results.Auto(): %v", class, typeNames(cols), err)
 			}
 			if len(res) != n {
 				rt.Fatalf("[%s] %d targets inferred from a block of %d columns", class, len(res), n)
@@ -670,9 +670,10 @@ func TestC18InferAndEquivalences(t *testing.T) {
 		switch class {
 		case "enum-adopts-definition", "array-of-enum", "map-of-enum":
 			// The definition the server announces: 2-4 members whose names may carry leading,
-			// trailing or inner blanks, be empty or non-ASCII (no quote, comma, '=' or backslash:
-			// the definition parser is documented for plain names only).
-			pool := []string{"x", "y", " a", "a", "b ", "x y", "", "ключ", "a.b", "-", "  ", " lead and trail "}
+			// trailing or inner blanks, commas, equals signs or parentheses, be empty or non-ASCII
+			// (no quote or backslash: the library keeps names in their escaped spelling, and which
+			// spelling a caller gets is not part of the statement).
+			pool := []string{"x", "y", " a", "a", "b ", "x y", "", "ключ", "a.b", "-", "  ", " lead and trail ", "a,b", "x=1,y", "=", ", ", "k = 5", "(", "f(x)"}
 			names := map[int64]string{5: "x", -7: "y"}
 			if rapid.Bool().Draw(rt, "generated-definition") {
 				perm := rapid.Permutation(pool).Draw(rt, "member-names")
